@@ -83,8 +83,14 @@ Qed.
 Lemma wrap32_small i : (N.of_nat i < 4294967296)%N -> wrap32 i = i.
 Proof. intros H. unfold wrap32. apply N.ltb_lt in H. rewrite H. reflexivity. Qed.
 
+Lemma two16_N : N.of_nat two16 = 65536%N.
+Proof. unfold two16. rewrite Nat2N.inj_pow. reflexivity. Qed.
+
 Lemma wrap16_small i : (N.of_nat i < 65536)%N -> wrap16 i = i.
-Proof. intros H. unfold wrap16. apply N.ltb_lt in H. rewrite H. reflexivity. Qed.
+Proof.
+  intros H. unfold wrap16. destruct (Nat.leb_spec two16 i) as [Hle|Hlt]; auto.
+  exfalso. pose proof two16_N as E. generalize dependent two16. intros t Hle E. lia.
+Qed.
 
 (* the stored lane is the row index modulo 2^32 / 2^16 (`i as i32` / `i as i16` read back unsigned) *)
 Lemma wrap32_mod i : wrap32 i = N.to_nat (N.modulo (N.of_nat i) 4294967296).
@@ -95,7 +101,9 @@ Qed.
 
 Lemma wrap16_mod i : wrap16 i = N.to_nat (N.modulo (N.of_nat i) 65536).
 Proof.
-  unfold wrap16. destruct (N.ltb_spec (N.of_nat i) 65536) as [H|H]; auto.
+  unfold wrap16. destruct (Nat.leb_spec two16 i) as [Hle|Hlt]; auto.
+  assert (H : (N.of_nat i < 65536)%N).
+  { pose proof two16_N as E. generalize dependent two16. intros t Hlt E. lia. }
   rewrite N.mod_small by exact H. symmetry. apply Nat2N.id.
 Qed.
 
